@@ -50,6 +50,13 @@ fn commands() -> Vec<(&'static str, &'static str, &'static str, u64)> {
         ("newer-set-safe-ahead", "set-safe nk 40 ahead{n}", "nw", 1),
         ("newer-increment", "increment ncounter 2", "nw", 1),
         ("newer-remove", "remove nk2", "nw", 1),
+        // the same writes from a user session (database d) whose permission list has several grants covering the key
+        ("user-set", "set k{n} v{n}", "ud", 1),
+        ("user-set-existing", "set shared v{n}", "ud", 1),
+        ("user-set-safe", "set-safe k{n} 3 v{n}", "ud", 1),
+        ("user-increment", "increment counter 2", "ud", 1),
+        ("user-remove", "remove k{n}", "ud", 1),
+        ("user-get", "get shared", "ud", 0),
         ("unknown", "frobnicate {n}", "d", 0),
     ]
 }
@@ -131,6 +138,15 @@ pub fn run_cluster(n: usize, seed0: u64, order: &[usize], failover: bool, v: &Ve
         let name = format!("s{}", i);
         c.open_session(&name, i);
         c.call(&name, "auth admin pwd");
+        c.open_session(&format!("u{}", i), i);
+    }
+    // a user of database d whose list has several grants that cover the same keys (contains, prefix, everything)
+    {
+        let adm = format!("s{}", primary);
+        for l in ["use-db d tok", "create-user mu mpw", "set-permissions mu rwix k|rwi k*|rwx *|rwi shared|ri counter|rw c*"] {
+            c.call(&adm, l);
+            let _ = c.run_until_quiet();
+        }
     }
     let _ = c.run_until_quiet();
     st.lock().unwrap().clusters += 1;
@@ -144,8 +160,12 @@ pub fn run_cluster(n: usize, seed0: u64, order: &[usize], failover: bool, v: &Ve
         let node = alive[(oi / cmds.len()) % alive.len()];
         let (name, tmpl, db, changes) = cmds[ci];
         uniq += 1;
-        let sname = format!("s{}", node);
-        c.call(&sname, &format!("use-db {} tok", db));
+        let sname = if db == "ud" { format!("u{}", node) } else { format!("s{}", node) };
+        if db == "ud" {
+            c.call(&sname, "use-db d mu mpw");
+        } else {
+            c.call(&sname, &format!("use-db {} tok", db));
+        }
         let _ = c.run_until_quiet();
         let line = tmpl.replace("{n}", &uniq.to_string()).replace("{opid}", &opid);
         let before = c.link_log().len();
